@@ -22,7 +22,7 @@ import numpy as np
 from harness import common, finder_lib as FL, synth
 
 LEVEL = "model_checking"
-KINDS = ["sparse", "blends", "tiny", "many", "edge", "nanregion", "coincident", "empty"]
+KINDS = ["sparse", "blends", "tiny", "many", "edge", "nanregion", "coincident", "empty", "psfmap"]
 
 
 def observe(args):
@@ -35,6 +35,10 @@ def observe(args):
     path = base + ".fits"
     synth.write(path, sc["img"], sc["header"])
     kw = sc["kw"]
+    if "psfmap" in sc:
+        from astropy.io import fits
+        fits.PrimaryHDU(sc["psfmap"][0], header=sc["psfmap"][1]).writeto(base + "_psf.fits", overwrite=True)
+        kw["imgpsf"] = base + "_psf.fits"
     recs = []
 
     def record(rid, mode, run, spec_child, blind, withislands):
@@ -118,6 +122,8 @@ def observe(args):
             recs.append(r3)
         os.remove(catf)
     os.remove(path)
+    if os.path.exists(base + "_psf.fits"):
+        os.remove(base + "_psf.fits")
     return recs
 
 
